@@ -329,6 +329,19 @@ def specRoundTrip (T : Nat → ClassDef) (i : Inst) : RtOut → Bool
   | .raised => false
   | .obj o same tags => decide (normInst o = normInst i) && same && decide (tags = expectedOrder T i)
 
+/-- The same for the extension-element form of serialisation (`element_to_extension_element(obj).to_string()`),
+    which by construction writes the extension children first: the order conjunct is dropped, the second
+    serialisation is taken through the same form. -/
+def specRoundTripExt (i : Inst) : RtOut → Bool
+  | .raised => false
+  | .obj o same _ => decide (normInst o = normInst i) && same
+
+/-- constructor defaults of the table: (class tag, attribute) pairs where a fresh `cls()` holds a value for a
+    declared attribute that no `setdefault` prologue overrides -/
+def ctorDefaultPairs (l : List ClassDef) : List (QName × Name) :=
+  l.flatMap fun cd => (cd.attrs.zip cd.attrInit).filterMap fun p =>
+    if p.2.isSome && !(cd.defaults.any fun d => d.1 == p.1.name) then some (cd.tag, p.1.name) else none
+
 /-- the model's outcome -/
 def modelRoundTrip (E : Env) (i : Inst) : RtOut :=
   if !classSerialisable (E.T i.cls) || roundTripRaises E i then .raised
